@@ -278,7 +278,14 @@ theorem handle_command_total (w : Worker V) (c : Cmd V) (h : CmdOK w c) :
     ∃ w' evs, w.handleCommand c = .ok (w', evs) := by
   cases c with
   | spawn pid fnOk => simp only [CmdOK] at h; simp [Worker.handleCommand, h]
-  | deliver t m => simp only [CmdOK] at h; simp [Worker.handleCommand, h]
+  | deliver t m =>
+    simp only [CmdOK] at h
+    simp only [Worker.handleCommand, h, if_true]
+    generalize (w.variant.releaseDead &&
+        !(match w.ex.getProc t with
+          | some p => p.deliverable (decide (t ∈ w.persistent))
+          | none => false)) = c
+    cases c <;> simp
   | updateAwaitResults a results =>
     simp only [CmdOK] at h
     obtain ⟨w', any', hr⟩ := notifyResults_total a results w false h
@@ -320,6 +327,20 @@ theorem resume_of_failed_process_is_no_op (w : Worker V) (pid : Nat) (p : Proc V
     (hp : w.ex.getProc pid = some p) (hr : p.result = some (.err e)) :
     w.handleCommand (.resume pid true) = .ok (w, []) := by
   simp [Worker.handleCommand, hp, hr]
+
+/-- Variant `releaseDead` (notes/C06-fixes/01): a message for a process that has FAILED (or is unknown here, or has
+    finished and is not persistent) is dropped: no mailbox grows, no heap data is looked at (so not even a
+    malformed wire value is an error), only the wake-up of `notify_message` stays. -/
+theorem message_to_dead_process_is_dropped (w : Worker V) (t : Nat) (m : Wire V) (p : Proc V) (e : ErrClass)
+    (hv : w.variant.releaseDead = true) (hp : w.ex.getProc t = some p) (hr : p.result = some (.err e)) :
+    w.handleCommand (.deliver t m) = .ok ({ w with ex := w.ex.wake t }, []) := by
+  simp [Worker.handleCommand, hv, hp, Proc.deliverable, hr]
+
+/-- … and without the repair (the flag off) the dead process's mailbox still grows. -/
+theorem message_to_dead_process_is_stored_without_repair (w : Worker V) (t : Nat) (m : Wire V)
+    (hv : w.variant.releaseDead = false) (hwf : m.wf = true) :
+    w.handleCommand (.deliver t m) = .ok ({ w with ex := w.ex.notifyMessage t m.val }, []) := by
+  simp [Worker.handleCommand, hv, hwf]
 
 /-- commands are `CmdOK` in the state in which each of them is handled -/
 def CmdsOK : Worker V → List (Cmd V) → Prop
